@@ -674,7 +674,7 @@ def bind(w: dict, ds: xarray.Dataset):
         from emsarray.conventions.arakawa_c import ArakawaC
         names = arakawa_coord_names(w)
         # the caller's mapping lists the grid kinds in whatever order the caller likes
-        order = [["face", "left", "back", "node"], ["node", "back", "left", "face"], ["left", "node", "face", "back"]][(w.get("ny", 0) + 2 * w.get("nx", 0)) % 3]
+        order = [["face", "left", "back", "node"], ["node", "back", "left", "face"], ["left", "node", "face", "back"]][w.get("korder", w.get("ny", 0) + 2 * w.get("nx", 0)) % 3]
         conv = ArakawaC(ds, coordinate_names={k: names[k] for k in order})
         conv.bind()
         return conv
